@@ -399,6 +399,9 @@ def s_not(t):
     return "(not %s)" % t
 
 
+ENUM_INDEX_Q = {}      # "Enum::Variant" -> declaration index, filled from the crate's sources by mir_engine (fieldless and data enums alike)
+
+
 def wrap(term, ty):
     """Reduce a mathematical integer term into the range of machine type ty."""
     lo, hi = INT_RANGES[ty]
@@ -677,6 +680,9 @@ class Exec:
                 if a.const is not None:
                     return mk_int(a.const & b.const, ty)
                 return IntV("(mod %s %d)" % (a.term, b.const + 1), ty)
+        if getattr(self, "havoc_unknown", False) and op in ("BitOr", "BitXor", "BitAnd", "Shl", "Shr", "ShlUnchecked", "ShrUnchecked"):
+            # a bit operation this (integer) encoding has no exact term for: an arbitrary value of the result type
+            return self.ctx.fresh_int("bitop", ty if ty in INT_RANGES else None)
         raise EncodingError("unsupported binop %s in %s" % (op, fn.name))
 
     def cast(self, v, ty, fn):
@@ -731,6 +737,11 @@ class Exec:
                     return mk_int(v.variant, "isize")
                 if v.variant in getattr(self, "enum_index", {}):
                     return mk_int(self.enum_index[v.variant], "isize")
+                if isinstance(v.variant, str) and v.ty:
+                    segs = re.sub(r"::<[^<>]*>", "", v.ty).split("::")
+                    qn = "::".join(segs[-2:]) if len(segs) >= 2 else None
+                    if qn in ENUM_INDEX_Q:
+                        return mk_int(ENUM_INDEX_Q[qn], "isize")
                 if v.variant in ("None", "Ok", "Continue"):
                     return mk_int(0, "isize")
                 if v.variant in ("Some", "Err", "Break"):
